@@ -49,9 +49,9 @@ def fixtures(scheme="CJJ14.PiBas"):
 
 
 class Run:
-    def __init__(self, fx, base, variant=0):
+    def __init__(self, fx, base, variant=0, cleanup_delay=0.0):
         self.fx = fx
-        self.w = fe_world.World(REPO, base, echo_cap=5)
+        self.w = fe_world.World(REPO, base, echo_cap=30, cleanup_delay=cleanup_delay)
         self.sid = ""
         self.keys = []
         self.variant = variant
@@ -67,7 +67,7 @@ class Run:
         flags = cs["flags"] if cs["exists"] and cs["flags"] >= 0 else 0
         if cs["key"] and cs["key"] not in self.keys:
             self.keys.append(cs["key"])
-        dirs = w.client_dirs()
+        dirs = [d for d in w.client_dirs() if d != getattr(self, "decoy_sid", None)]
         ss = w.server_state(self.sid) if self.sid else {"st": 0}
         stray = [f for f in os.listdir(w.cdir) if not os.path.isdir(os.path.join(w.cdir, f))]
         o = {"exists": bool(cs["exists"] and cs["flags"] >= 0),
